@@ -330,4 +330,121 @@ theorem applyFilter_safe (W : World) {comp : Component} {chain : List FieldRef} 
     rename_i o hop hright
     simp [filterWf, hop, hright] at hwf
 
+/-! ### local filters, entry into a vertex -/
+
+/-- What entering a vertex needs to know about a context whose active vertex is the new one. -/
+structure VPre (W : World) (comp : Component) (chain : List FieldRef) (st : WState)
+    (eids : List Eid) (curType : Name) (c : Ctx) : Prop where
+  verts : VertsOK W comp st c.vertices
+  counts : CountsOK eids c.foldCounts
+  tags : TagsOK chain c.importedTags
+  act : activeOK W.D c.active curType = true
+  vals : c.values = []
+
+theorem Ctx.push_pop (c : Ctx) (v : Value) : { c.pushValue v with values := c.values } = c := by
+  cases c; rfl
+
+theorem applyLocalFieldFilter_safe (W : World) {comp : Component} {chain : List FieldRef}
+    {st : WState} {eids : List Eid} {v : IRVertex}
+    (hso : soLocal W.S chain comp = true) (hv : comp.vertex? v.vid = some v)
+    {f : IRFilter}
+    (hwf : filterWf W.vars comp chain st.recorded eids v.vid false f = true)
+    (hty : vertexFilterTyped W.S comp v f = true)
+    (hnt : W.G → vertexFilterNoTrigger W.D W.args f = true)
+    (ctxs : List Ctx) (hc : ∀ c ∈ ctxs, VPre W comp chain st eids v.typeName c) :
+    Safe W.G (fun out => ∀ c' ∈ out, c' ∈ ctxs) (applyLocalFieldFilter W.env comp v.vid f ctxs) := by
+  have hvt := isVertexType_of_vertexTyped (vertexTyped_of hso hv)
+  unfold applyLocalFieldFilter
+  cases hleft : f.left with
+  | count => simp [vertexFilterTyped, hleft] at hty
+  | loc field ty =>
+    simp only [typeOf_ok hv, R.bind_ok']
+    simp only [vertexFilterTyped, hleft, Bool.and_eq_true] at hty
+    have hp := optQTy_beq hty.1
+    simp only [vertexFilterNoTrigger, hleft] at hnt
+    refine Safe.bind (P := fun mid => ∀ c' ∈ mid, ∃ c ∈ ctxs,
+        c' = c.pushValue (W.D.propOpt c.active field)) ?_ ?_
+    · unfold computeLocalField
+      refine Safe.mapR (P := fun c => c ∈ ctxs) ?_ (fun x hx => hx)
+      intro c _ hcm
+      simp only [R.bind_eq_bind, R.pure_eq_ok]
+      rw [checked_prop hvt (by simp [hp]) (hc c hcm).act]
+      exact ⟨c, hcm, rfl⟩
+    · intro mid hmid
+      refine Safe.mono (applyFilter_safe W (st := st) (eids := eids) (leftTy := ty) hso hv hvt hwf
+        hty.2 hnt mid ?_) ?_
+      · intro c' hc'
+        obtain ⟨c, hcm, rfl⟩ := hmid c' hc'
+        have h := hc c hcm
+        exact ⟨h.verts, h.counts, h.tags, h.act, _, _, rfl,
+          fun x hx => propOpt_valid h.act hp x hx⟩
+      · intro out hout c'' hc''
+        obtain ⟨c', hc', val, rest, hvals, rfl⟩ := hout c'' hc''
+        obtain ⟨c, hcm, rfl⟩ := hmid c' hc'
+        simp only [Ctx.pushValue, (hc c hcm).vals, List.cons.injEq] at hvals
+        obtain ⟨_, rfl⟩ := hvals
+        have := Ctx.push_pop c (W.D.propOpt c.active field)
+        rw [(hc c hcm).vals] at this
+        rw [this]; exact hcm
+
+theorem applyLocalFilters_safe (W : World) {comp : Component} {chain : List FieldRef}
+    {st : WState} {eids : List Eid} {v : IRVertex}
+    (hso : soLocal W.S chain comp = true) (hv : comp.vertex? v.vid = some v)
+    (fs : List IRFilter)
+    (hwf : ∀ f ∈ fs, filterWf W.vars comp chain st.recorded eids v.vid false f = true)
+    (hty : ∀ f ∈ fs, vertexFilterTyped W.S comp v f = true)
+    (hnt : W.G → ∀ f ∈ fs, vertexFilterNoTrigger W.D W.args f = true)
+    (ctxs : List Ctx) (hc : ∀ c ∈ ctxs, VPre W comp chain st eids v.typeName c) :
+    Safe W.G (fun out => ∀ c' ∈ out, c' ∈ ctxs) (applyLocalFilters W.env comp v.vid fs ctxs) := by
+  induction fs generalizing ctxs with
+  | nil => simp [applyLocalFilters]
+  | cons f fs ih =>
+    simp only [applyLocalFilters]
+    refine Safe.bind (applyLocalFieldFilter_safe W hso hv (hwf f (by simp)) (hty f (by simp))
+      (fun g => hnt g f (by simp)) ctxs hc) ?_
+    intro mid hmid
+    refine Safe.mono (ih (fun f hf => hwf f (by simp [hf])) (fun f hf => hty f (by simp [hf]))
+      (fun g f hf => hnt g f (by simp [hf])) mid (fun c hcm => hc c (hmid c hcm))) ?_
+    intro out hout c hcm
+    exact hmid c (hout c hcm)
+
+
+theorem vertexFiltersTyped_of {S : SchemaView} {comp : Component} {v : IRVertex}
+    (h : vertexTyped S comp v = true) : ∀ f ∈ v.filters, vertexFilterTyped S comp v f = true := by
+  simp only [vertexTyped, Bool.and_eq_true, List.all_eq_true] at h
+  exact h.2
+
+theorem enterVertex_safe (W : World) {comp : Component} {chain : List FieldRef}
+    {st : WState} {eids : List Eid} {v : IRVertex}
+    (hso : soLocal W.S chain comp = true) (hv : comp.vertex? v.vid = some v)
+    (hwf : ∀ f ∈ v.filters, filterWf W.vars comp chain st.recorded eids v.vid false f = true)
+    (hnt : W.G → ∀ f ∈ v.filters, vertexFilterNoTrigger W.D W.args f = true)
+    (hfresh : v.vid ∉ st.recorded)
+    (ctxs : List Ctx) (hc : ∀ c ∈ ctxs, VPre W comp chain st eids v.preType c) :
+    Safe W.G (fun out => ∀ c' ∈ out, ∃ c ∈ ctxs, activeOK W.D c.active v.typeName = true ∧
+        c' = { c with vertices := c.vertices ++ [(v.vid, c.active)] })
+      (enterVertex W.env comp v ctxs) := by
+  have hvt := vertexTyped_of hso hv
+  unfold enterVertex
+  refine Safe.bind (coerceIfNeeded_safe W hvt ctxs (fun c hcm => (hc c hcm).act)) ?_
+  intro coerced hco
+  have hpre : ∀ c ∈ coerced, VPre W comp chain st eids v.typeName c := by
+    intro c hcm
+    obtain ⟨hin, hact⟩ := hco c hcm
+    have h := hc c hin
+    exact ⟨h.verts, h.counts, h.tags, hact, h.vals⟩
+  refine Safe.bind (applyLocalFilters_safe W hso hv v.filters hwf (vertexFiltersTyped_of hvt) hnt
+    coerced hpre) ?_
+  intro filtered hfi
+  refine Safe.mapR (P := fun c => c ∈ filtered) ?_ (fun x hx => hx)
+  intro c _ hcm
+  have hcc := hfi c hcm
+  obtain ⟨hin, hact⟩ := hco c hcc
+  have hnone : c.vertexAt? v.vid = none := by
+    rw [vertexAt?_eq, lookupV_none, (hc c hin).verts.keys]
+    exact hfresh
+  simp only [Ctx.recordVertex, hnone, Safe.ok_iff]
+  exact ⟨c, hin, hact, rfl⟩
+
+
 end TF.Engine
